@@ -631,6 +631,10 @@ package mcp
 //@   assert at call Notify: @notice-uses-bounded-context $0 == conn && $1 == callResult(bound, 1, 0) && $2 == notificationCancelled
 //@   ensures @the-call-is-retired-even-if-the-notice-fails calls(retire) == 1 && callArg(retire, 1, 0) == conn && callArg(retire, 1, 1) == call
 //@   ensures @one-notice calls(notify) == 1 && result == callResult(notify, 1, 0)
+// (defect F24) the notice carries the per-request metadata of the call it cancels - without it a 2026-07-28 server
+// rejects the notice and the streamable client gives up the whole session.
+//@   track cancellationMeta as metaOf
+//@   assert at call Notify: @notice-carries-the-metadata-of-the-cancelled-call calls(metaOf) == 1 && callArg(metaOf, 1, 0) == params && typeIs($3, *CancelledParams) && $3.(*CancelledParams).Meta == callResult(metaOf, 1, 0)
 // The best-effort cancellation notice: sent with the caller's values but not its cancellation, bounded by the
 // notification timeout, referencing exactly the abandoned call.
 //@ func call$1 [C04, C10, C13, C05]
@@ -643,6 +647,8 @@ package mcp
 //@   assert at call context.WithTimeout: @bounded-and-detached $0 == callResult(detach, 1, 0) && $1 == notifyCancellationTimeout
 //@   assert at call Notify: @notice-uses-bounded-context $0 == conn && $1 == callResult(bound, 1, 0) && $2 == notificationCancelled
 //@   ensures @one-notice calls(notify) == 1 && calls(detach) == 1 && calls(bound) == 1
+//@   track cancellationMeta as metaOf
+//@   assert at call Notify: @notice-carries-the-metadata-of-the-cancelled-call calls(metaOf) == 1 && callArg(metaOf, 1, 0) == params && typeIs($3, *CancelledParams) && $3.(*CancelledParams).Meta == callResult(metaOf, 1, 0)
 
 // ---------------------------------------------------------------------------------------------
 // C02: JSON-RPC batches on the newline-delimited transport: the reply to a batch is withheld until every call of
@@ -2133,3 +2139,15 @@ package mcp
 //@   modifies *
 //@   assert at call writeEvent: @events-are-written-inside-the-transport-lock held(ssemu) && !s.t.closed && $0 == s.t.Response && $1.Name == "message" && $1.Data == callResult(encode, 1, 0)
 //@   ensures @at-most-one-event-per-message calls(emit) <= 1
+
+// cancellationMeta (defect F24): no metadata for a call made without params; otherwise the three per-request keys
+// are looked up in the metadata of the call being cancelled, in the order version, client info, capabilities, and a
+// key that is present is copied with its value (the loop reads params.GetMeta() once per key and writes only the
+// fresh result map).
+//@ func cancellationMeta [C04]
+//@   nopanic
+//@   track GetMeta as source
+//@   modifies *
+//@   ensures @no-params-no-metadata params == nil ==> result == nil
+//@   ensures @every-per-request-key-is-looked-up calls(source) <= 3
+//@   loop 1: invariant @one-lookup-per-key-so-far calls(source) <= $idx && $idx <= 3
